@@ -427,6 +427,9 @@ func gen(r *rand.Rand, thorough bool, i int) []string {
 		if s == 1 || i%2 == 0 {
 			k2 := []string{"seed", "cseed", "seednb"}[(i/3)%3]
 			ops = append(ops, fmt.Sprintf("%s %d %s", k2, seed2, permStr(seed2, size)), "ranks")
+			for _, id := range ids {
+				ops = append(ops, "rank "+id.id)
+			}
 		}
 		if s == 0 && r.Intn(4) == 0 && size > 0 {
 			// a miner joining after the seed: its SetIndex is outside the permutation for the highest key
@@ -551,7 +554,6 @@ func oracle(ops, outs []string) *corr.Violation {
 					cur.seeded = true
 					cur.n = len(f) - 2
 				}
-				cur.answers = map[string]string{}
 			}
 		case "ranks":
 			if cur == nil {
